@@ -64,6 +64,7 @@ def run(ctx):
              "loop iteration clears), and the return address is popped before control moves")
     rule_a(ctx, cr)
     rule_b(ctx, cr)
+    rule_b2(ctx, cr)
     rule_c(ctx, cr)
     rule_d(ctx, cr)
     rule_f(ctx, cr)
@@ -195,6 +196,32 @@ def rule_b(ctx, cr):
     codes = {c for _b, c, _s in f.error_codes()}
     ctx.check("UndefinedLine" in codes, "C01.b", "link/undefined-line", f.span,
               "an unresolved line symbol is reported as UNDEFINED LINE")
+
+
+def rule_b2(ctx, cr):
+    """Link::link: operands written into opcodes come from symbols.get(), one write per reference"""
+    f = cr.need_fn("mach::link::Link::link")
+    ctx.touch(f)
+    bad = []
+    n = 0
+    for b, i, st in f.aggregates(OPC):
+        if st["rv"]["variant"] not in ("Jump", "IfNot", "Restore", "Literal"):
+            continue
+        n += 1
+        d = f.describe(st["rv"]["ops"][0]) if st["rv"]["ops"] else ""
+        if "BTreeMap::<K, V, A>::get(&(*_1).symbols" not in d:
+            bad.append((st["rv"]["variant"], d[:70]))
+    gm = [c for c in f.calls() if re.search(r"Stack<T>::get_mut$", c.name)]
+    rd = [c for c in f.calls() if re.search(r"Stack<T>::(get|last)$", c.name)
+          and f.describe(c.args[0]).endswith(".ops")]
+    ctx.check(n >= 5 and not bad and len(gm) == 1 and not rd, "C01.b", "link/addresses-from-symbols",
+              f.span, "%d patched opcodes, each operand read from the symbol table; code is written "
+              "through one get_mut and never read back" % n,
+              "Link::link builds an operand that does not come from symbols.get() or reads code "
+              "back while patching (%s; %d get_mut, %d reads of ops): a branch then lands "
+              "somewhere else than on the line or label it names (jump threading skips the "
+              "lines in between, so the trace and the compile-error gate no longer see them)"
+              % (bad, len(gm), len(rd)))
 
 
 def rule_c(ctx, cr):
